@@ -189,8 +189,20 @@ class Oracle(object):
             res.fail('C19', 'Adj-RIB-Out differs from the in-order application of the UPDATEs sent',
                      dict(case, got=pub['raw_rib_out'], expected=self.rib_out), key='adj-rib-out')
             return False
-        # the REST accessors must show the same tables (pool prefixes are pairwise disjoint: no longest match)
-        if pub['rib_in'] is None or any(pub['rib_in'].get(p) != self.rib_in.get(p) for p in R.PREFIXES):
+        # the REST accessors must show the same tables; the Adj-RIB-In accessor answers with the entry itself when it is
+        # present and otherwise with the longest prefix of the table that covers the one asked for
+        def lookup(p):
+            if p in self.rib_in:
+                return self.rib_in[p]
+            import ipaddress
+            net = ipaddress.ip_network(p)
+            best = None
+            for q in self.rib_in:
+                qn = ipaddress.ip_network(q)
+                if net.subnet_of(qn) and (best is None or qn.prefixlen > ipaddress.ip_network(best).prefixlen):
+                    best = q
+            return self.rib_in[best] if best is not None else None
+        if pub['rib_in'] is None or any(pub['rib_in'].get(p) != lookup(p) for p in R.PREFIXES):
             res.fail('C19', 'get_adj_rib_in does not show the Adj-RIB-In',
                      dict(case, got=pub['rib_in'], expected=self.rib_in), key='adj-rib-in-lookup')
             return False
@@ -217,10 +229,11 @@ class Case(object):
     """runs one history on the implementation, checks the oracle on the way, and records the model requests
     together with the implementation's observations for the comparison with the Lean model"""
 
-    def __init__(self, res, rib, ids, oracle=True, fault=False):
+    def __init__(self, res, rib, ids, oracle=True, fault=False, ibgp=False):
         self.res = res
         self.rib = rib
-        self.real = R.RealRib(rib, ids)
+        self.ibgp = bool(ibgp)
+        self.real = R.RealRib(rib, ids, ibgp=ibgp)
         self.fault = bool(fault)
         if fault:
             # the application's handler fails in its update callback (a collector that is down, a log file that was
@@ -251,10 +264,10 @@ class Case(object):
             self.skipped = self.real.problem
         if self.real.trouble:
             self.res.fail('C19', 'the RIB / version bookkeeping raised or disturbed the session: %s' % self.real.trouble,
-                          {'rib': self.rib, 'fault': self.fault, 'events': list(self.events)}, key='bookkeeping-exception')
+                          {'rib': self.rib, 'fault': self.fault, 'ibgp': self.ibgp, 'events': list(self.events)}, key='bookkeeping-exception')
             self.real.trouble = None
         if self.oracle is not None and self.oracle_ok and not self.skipped:
-            self.oracle_ok = self.oracle.check(self.res, self.real, {'rib': self.rib, 'fault': self.fault, 'events': list(self.events)})
+            self.oracle_ok = self.oracle.check(self.res, self.real, {'rib': self.rib, 'fault': self.fault, 'ibgp': self.ibgp, 'events': list(self.events)})
 
     def apply(self, ev):
         k = ev['k']
@@ -290,9 +303,11 @@ class Case(object):
             self._record(ev, {'k': 'recv', 'msg': R.model_msg(dec, self.ids)})
         elif k == 'send':
             pm, constructible = R.send_message(ev['m'])
+            real.send(pm, constructible)
+            if real.last_eff_attr is not None and real.last_eff_attr != pm['attr']:
+                pm = dict(pm, attr=real.last_eff_attr)
             mm = R.model_msg(pm, self.ids)
             a_text, mp_text = R.canon(pm['attr']), R.canon(strip_mp(pm['attr']))
-            real.send(pm, constructible)
             if self.oracle:
                 self.oracle.update('send', ev['m'], a_text, mp_text)
             self._record(ev, {'k': 'send', 'msg': mm})
@@ -336,8 +351,8 @@ class Runner(object):
         self.n_req = 0
         self.flush_at = flush_at
 
-    def run(self, rib, events, oracle=True, tag='', sample=False, fault=False):
-        c = Case(self.res, rib, self.ids, oracle, fault)
+    def run(self, rib, events, oracle=True, tag='', sample=False, fault=False, ibgp=False):
+        c = Case(self.res, rib, self.ids, oracle, fault, ibgp)
         c.apply({'k': 'connect'})
         for ev in events:
             if c.skipped:
@@ -374,7 +389,7 @@ class Runner(object):
                     m = dict(m, tree=None)
                 if io != m:
                     self.res.disagree('rib step %d (%s)' % (j - 1, c.reqs[j].get('op')),
-                                      {'rib': c.rib, 'fault': c.fault, 'events': c.events[:j],
+                                      {'rib': c.rib, 'fault': c.fault, 'ibgp': c.ibgp, 'events': c.events[:j],
                                        'ids': {str(x): self.ids.name(x) for x in _ids_in(io, m)}}, io, m)
                     break
         self.pending = []
@@ -433,14 +448,15 @@ def extended_alphabet():
 
 
 def rnd_spec(r, side):
-    m = {'a': r.randrange(3), 'n': [], 'w': []}
+    m = {'a': r.randrange(4), 'n': [], 'w': []}
     shape = r.random()
     if shape < 0.55:
-        m['n'] = [r.randrange(3) for _ in range(r.choice([0, 1, 1, 1, 2, 3]))]
-        m['w'] = [r.randrange(3) for _ in range(r.choice([0, 0, 0, 1, 1, 2]))]
+        npfx = len(R.PREFIXES)
+        m['n'] = [r.randrange(npfx) for _ in range(r.choice([0, 1, 1, 1, 2, 3]))]
+        m['w'] = [r.randrange(npfx) for _ in range(r.choice([0, 0, 0, 1, 1, 2]))]
         if not m['n']:
             if not m['w']:
-                m['w'] = [r.randrange(3)]
+                m['w'] = [r.randrange(npfx)]
             if r.random() < 0.8:
                 m['a'] = None
     if shape >= 0.45:
@@ -560,7 +576,10 @@ def run(seed, tier, driver):
         fault = i % 8 == 3
         if fault:
             res.stats.hit('histories_with_failing_handler')
-        c = run_.run(rib, evs, tag='rnd-fault' if fault else 'rnd', sample=(i < 2), fault=fault)
+        ibgp = i % 5 == 1
+        if ibgp:
+            res.stats.hit('histories_on_an_ibgp_session')
+        c = run_.run(rib, evs, tag=('rnd-fault' if fault else 'rnd') + ('-ibgp' if ibgp else ''), sample=(i < 2), fault=fault, ibgp=ibgp)
         for e in c.events:
             res.stats.hit('event_' + e['k'])
     # (d) the anchored methods called directly on the protocol object (tie only)
@@ -581,7 +600,7 @@ def _replay_cases(cases, driver, name):
         evs = list(c['events'])
         if evs and evs[0].get('k') == 'connect':
             evs = evs[1:]
-        run_.run(bool(c.get('rib', True)), evs, oracle=not has_call, tag='replay', sample=True, fault=bool(c.get('fault')))
+        run_.run(bool(c.get('rib', True)), evs, oracle=not has_call, tag='replay', sample=True, fault=bool(c.get('fault')), ibgp=bool(c.get('ibgp')))
     run_.flush()
     return res
 
@@ -593,11 +612,11 @@ def replay(path, driver):
     for f in d.get('failures', []):
         rp = f.get('replay', {})
         if 'events' in rp:
-            cases.append({'rib': rp.get('rib', True), 'fault': rp.get('fault'), 'events': rp['events']})
+            cases.append({'rib': rp.get('rib', True), 'fault': rp.get('fault'), 'ibgp': rp.get('ibgp'), 'events': rp['events']})
     for dis in d.get('disagreements', []) + [x for s in d.get('broken_correspondence', []) for x in s.get('disagreements', [])]:
         cs = dis.get('case', {})
         if 'events' in cs:
-            cases.append({'rib': cs.get('rib', True), 'fault': cs.get('fault'), 'events': cs['events']})
+            cases.append({'rib': cs.get('rib', True), 'fault': cs.get('fault'), 'ibgp': cs.get('ibgp'), 'events': cs['events']})
     if 'events' in d:
         cases.append({'rib': d.get('rib', True), 'events': d['events']})
     return _replay_cases(cases, driver, 'rib-replay')
